@@ -173,6 +173,18 @@ fn run_matrix(ctx: &mut Ctx, rng: &mut Rng, index: u64, seg_class: u8) {
         lines.push(if index % 2 == 0 { "Connection: close, Content-Length, Transfer-Encoding" } else { "connection: Transfer-Encoding,content-length" });
         ctx.count("framing_fields_nominated_by_connection", 1);
     }
+    // fields that do not take part in the framing decision: a persistence announcement (a body
+    // without a declared length still runs to the end of the connection) and `chunked` named as a
+    // CONTENT coding (only Transfer-Encoding selects the chunked framing; as a content coding it is
+    // an unknown one and the body passes through as framed)
+    if index % 5 == 1 {
+        lines.push(["Connection: keep-alive", "connection: Keep-Alive, Upgrade", "Keep-Alive: timeout=5, max=100"][(index / 5 % 3) as usize]);
+        ctx.count("heads_announcing_a_persistent_connection", 1);
+    }
+    if index % 7 == 2 && tev == TeVerdict::NoChunked {
+        lines.push(["Content-Encoding: chunked", "content-encoding: identity, Chunked"][(index / 7 % 2) as usize]);
+        ctx.count("chunked_named_as_a_content_coding", 1);
+    }
     let mut coded_body: Option<&'static [u8]> = None;
     if !no_body && clv == ClVerdict::Invalid && tev == TeVerdict::NoChunked && index % 2 == 1 {
         // an unusable Content-Length stays unusable when the body is declared gzip/deflate-coded
